@@ -1,5 +1,5 @@
 use super::swift_utils::{
-    fit_amount_length, format_swift_amount_min_decimals, parse_amount_with_length,
+    ensure_ascii, fit_amount_length, format_swift_amount_min_decimals, parse_amount_with_length,
 };
 use crate::errors::ParseError;
 use crate::traits::SwiftField;
@@ -36,6 +36,7 @@ impl SwiftField for Field37H {
     where
         Self: Sized,
     {
+        ensure_ascii(input, "Field 37")?;
         let mut remaining = input;
 
         // Parse rate indicator (1!a)
